@@ -18,9 +18,12 @@ type FaultyRDBI struct {
 	Calls  map[string]int
 	// Suspend makes the wrapper transparent (used for the harness's own verification reads).
 	Suspend bool
+	mu      sync.Mutex // free-running compilations call from several goroutines
 }
 
 func (f *FaultyRDBI) hit(call string) bool {
+	f.mu.Lock()
+	defer f.mu.Unlock()
 	if f.Suspend {
 		return false
 	}
